@@ -33,6 +33,9 @@ def judge(cfg, s, out):
     if sep is None:
         if ml is not None and len(out) > ml:
             return ("sanitize-too-long", "len %d > max_length %d" % (len(out), ml))
+        # without a separator the whole text is the one segment the leading-zero clause speaks about
+        if not kz and len(out) > 1 and out.isascii() and out.isdigit() and out[0] == "0":
+            return ("sanitize-leading-zero-no-separator", "all-digit result %r keeps a leading zero although zeros are not kept" % out)
         return None
     adm = ref.admissible(s, sep, lower, kz, ml)
     if out in adm:
